@@ -101,6 +101,10 @@ static void c11_on_death() {
     vh::on_death();
 }
 #endif
+// Pixels the READER itself reports for this input (read_image_info), for inputs whose header the harness's own
+// parser cannot interpret (noise that happens to parse): work proportional to the declared size is allowed.
+static uint64_t g_info_declared = 0;
+static inline uint64_t budget_pixels(uint64_t harness_declared) { return harness_declared > g_info_declared ? harness_declared : g_info_declared; }
 // one reader call through one device with one pre-fill
 template <class Fn>
 static outcome run_once(input_t const& in, dev_kind d, const char* entry, pats_t p, Fn&& fn) {
@@ -113,7 +117,7 @@ static outcome run_once(input_t const& in, dev_kind d, const char* entry, pats_t
         case D_ISTREAM: {
             c11::in_streambuf sb(*in.bytes, o.ops);
             std::istream is(&sb);
-            c11::arm_budget(&o.ops, in.fmt, DEV_NAME[d], entry, in.bytes->size(), in.declared);
+            c11::arm_budget(&o.ops, in.fmt, DEV_NAME[d], entry, in.bytes->size(), budget_pixels(in.declared));
             c11::prefill_stack(p.stack);
             fn(is, o);
             break;
@@ -123,7 +127,7 @@ static outcome run_once(input_t const& in, dev_kind d, const char* entry, pats_t
             static c11::cookie_t ck;       // static: a FILE* that the reader failed to close must not dangle
             ck = c11::cookie_t(); ck.bytes = in.bytes; ck.st = &o.ops;
             FILE* f = c11::open_cookie(&ck);
-            c11::arm_budget(&o.ops, in.fmt, DEV_NAME[d], entry, in.bytes->size(), in.declared);
+            c11::arm_budget(&o.ops, in.fmt, DEV_NAME[d], entry, in.bytes->size(), budget_pixels(in.declared));
             c11::prefill_stack(p.stack);
             fn(f, o);
             break;
@@ -312,15 +316,20 @@ static const long VIEW_PIXEL_CAP = 1 << 20;
 static const uint64_t LITE_PIXELS = (uint64_t)2 << 20;
 template <class F> static void run_device(input_t const& in, dev_kind d, uint64_t salt, bool with_subrect) {
     typedef typename F::tag tag;
-    bool lite = in.declared > LITE_PIXELS;
+    bool lite = budget_pixels(in.declared) > LITE_PIXELS;
     if (lite) vh::obs("mode.lite");
     // (1) read_image_info
     run_entry(in, d, "info", [&](auto& s, outcome& o) {
         auto be = gil::read_image_info(s, tag());
         o.info = F::info_str(be._info);
+        { long long iw = (long long)be._info._width, ih = (long long)be._info._height;
+          if (iw > 0 && ih > 0) { unsigned __int128 pp = (unsigned __int128)iw * (unsigned __int128)ih; uint64_t q = pp > ((unsigned __int128)1 << 40) ? (uint64_t)1 << 40 : (uint64_t)pp; if (q > g_info_declared) g_info_declared = q; } }
     });
-    // (2) read_image in every native type
-    natives_loop<F, typename F::natives>::read_image(in, d);
+    // (2) read_image in every native type -- except for headers that declare more than 16 Mi pixels: reading such an
+    // image is tens of millions of device calls of legitimate work per entry point (time proportional to the
+    // declared size, which the property allows); those inputs keep read_image_info and the bounded scanline drain
+    if (budget_pixels(in.declared) <= ((uint64_t)16 << 20)) natives_loop<F, typename F::natives>::read_image(in, d);
+    else vh::obs("skipped-read_image.declared-over-16Mi-pixels");
     if (!lite) {
         // (4) read_view into an arena of the declared size (4x4 when the header declares nothing usable)
         long vw = 4, vh_ = 4;
@@ -365,6 +374,7 @@ template <class F> static void run_input(std::string const& bytes, bool truncate
     in.declared += F::declared_slack(bytes);
     uint64_t salt = c11::hash_raw(bytes.data(), bytes.size(), 1);
     c11::arm_cpu_net(200);
+    g_info_declared = 0;
     if (F::has_FILE) run_device<F>(in, D_FILE, salt, with_subrect);
     if (with_filename) run_device<F>(in, D_NAME, salt, with_subrect);
     run_device<F>(in, D_ISTREAM, salt, with_subrect);
